@@ -92,7 +92,7 @@ Proof. eexists; eexists. split; [vm_compute; reflexivity|]. split; reflexivity. 
 (* ---- finding F11 (refutation of the statement without erasure): an error raised inside a named
    fragment carries a path segment that is not a response key ---- *)
 Definition frag_doc : doc :=
-  mkDoc [mkOp OpQuery None [] [SFrag 1 1 []]] [(1, mkFrag (Some 1) [SField 2 None 4 [] [] []])].
+  mkDoc [mkOp OpQuery None [] [SFrag 1 1 []]] [(1, mkFrag (Some 1) [SField 2 None 4 [] [] []] [])].
 
 Example C06_refuted_fragment_segment :
   exists r s', exec_op C01.ex_schema g_fail false 100 1000 frag_doc None [] (GNodeR 1) (mkSt [] []) = Done (r, s') /\
